@@ -461,6 +461,13 @@ def run_ucase(c, Pm):
                     fails.append('convert between equal units changed the value: %r -> %r' % (v, res[1]))
                 if not close(res[1], want, 8):
                     fails.append('convert: %r, expected %r' % (res[1], want))
+                if rr.exact() and rr.k == 0 and float(v) == int(v) and abs(v) < 2 ** 20:
+                    # a purely rational factor applied to a small whole number: the result is THE float nearest to the
+                    # exact quotient (one division of exact integers; seeded change C12-L rounded the factor first)
+                    from fractions import Fraction as _Fr
+                    ex = float(_Fr(int(v)) * rr.q)
+                    if res[1] != ex:
+                        fails.append('convert is not exact: %r, the correctly rounded value is %r' % (res[1], ex))
                 back = b.convert(res[1], a)
                 if not close(back, v, 16):
                     fails.append('convert round trip: %r -> %r' % (v, back))
@@ -754,7 +761,9 @@ def run_ocase(c, Pm):
         else:
             expect_error(res, op + ' of incompatible units', kop='OOrder')
     elif op in ('eq', 'ne'):
-        b = mk_obj(Pm, cls, ub, shape, 1)      # same values: equal iff units allow
+        # same values: equal iff units allow; 'bcls': the right operand has the sibling class (it is converted with the
+        # left one as example - seeded change C12-M let the example's units win over the operand's own)
+        b = mk_obj(Pm, c.get('bcls') or cls, ub, shape, 1)
         res = guarded((lambda: a == b) if op == 'eq' else (lambda: a != b))
         if res[0] != 'ok':
             fails.append('%s raised %s at %s' % (op, res[1], res[2]))
@@ -1067,6 +1076,8 @@ def gen_cases(rng, tier, names):
             cases.append({'kind': 'U', 'op': 'div', 'a': N(a), 'b': N(b)})
             cases.append({'kind': 'U', 'op': 'cancel', 'a': N(a), 'b': N(b)})
             cases.append({'kind': 'U', 'op': 'convert', 'a': N(a), 'b': N(b), 'value': 7.25})
+            for wv in (3.0, 7.0, 11.0, 13.0):       # whole numbers: the conversion is exact (correctly rounded)
+                cases.append({'kind': 'U', 'op': 'convert', 'a': N(a), 'b': N(b), 'value': wv})
     for a in [None] + DISTINCT:
         for b in [None] + DISTINCT:
             cases.append({'kind': 'U', 'op': 'match', 'a': N(a) if a else None, 'b': N(b) if b else None})
@@ -1125,7 +1136,7 @@ def gen_cases(rng, tier, names):
         elif r < 0.74:
             cases.append({'kind': 'U', 'op': 'convert', 'a': a, 'b': b if rng.random() < 0.3 else
                           ['mul', a, ['div', ['n', rng.choice(known)], ['n', rng.choice(known)]]],
-                          'value': rng.choice([1.0, -2.5, 1e-7, 3.0e9])})
+                          'value': rng.choice([1.0, -2.5, 1e-7, 3.0e9, 3.0, 7.0, 11.0, 13.0])})
         elif r < 0.82:
             cases.append({'kind': 'U', 'op': 'match', 'a': a if rng.random() < 0.85 else None,
                           'b': b if rng.random() < 0.85 else None})
@@ -1150,6 +1161,10 @@ def gen_cases(rng, tier, names):
             for cls in allcls:
                 for op in ADDITIVE + ['eq', 'ne']:
                     obj_cases.append({'kind': 'O', 'op': op, 'cls': cls, 'ua': ua, 'ub': ub})
+                sib = {'Vector3': 'Vector', 'Vector': 'Vector3'}.get(cls)
+                if sib:
+                    for op in ('eq', 'ne'):
+                        obj_cases.append({'kind': 'O', 'op': op, 'cls': cls, 'bcls': sib, 'ua': ua, 'ub': ub})
                 obj_cases.append({'kind': 'O', 'op': 'set_units', 'cls': cls, 'ua': ua, 'ub': ub})
                 obj_cases.append({'kind': 'O', 'op': 'set_units', 'cls': cls, 'ua': ua, 'ub': ub, 'warm': True})
                 obj_cases.append({'kind': 'O', 'op': 'convert_dunits', 'cls': cls, 'ua': ua, 'ub': ub})
